@@ -166,6 +166,19 @@ def replay(prop, path):
                 return 1
         log("replay: no violation reproduced")
         return 0
+    if obj.get("kind") == "pdb-trace":
+        cfg = write_cfg(trace_cfg(obj["cols"], obj["nkeys"], obj["nvals"]))
+        res = vcore.tlc_trace("MCTracePdb.tla", cfg, obj["trace"])
+        log(res["out"][-1500:])
+        if not res["accepted"]:
+            log("VIOLATION property=%s replay=%s" % (prop, path))
+            return 1
+        log("replay: trace accepted")
+        return 0
+    if obj.get("kind") == "pdb-record":
+        r = record_and_validate(rep, obj["cols"], obj["nkeys"], obj["nvals"], obj["steps"], obj["seed"],
+                                crash=obj.get("crash", 0), label="replay", small=obj.get("small", False))
+        return rep.finish()
     if obj.get("kind") == "model":
         log(obj.get("tlc_tail", ""))
         log("VIOLATION property=%s replay=%s" % (prop, path))
@@ -208,4 +221,94 @@ def c01(tier):
     for i, cols in enumerate(C01_COLS):
         gen_and_replay(rep, cols, dict(feat=("restart", "reject"), maxops=3), num, 30, SEED + i * 101, 2, 2,
                        label="c01_%d" % i)
+    # implementation -> spec: seeded random histories, every hook event and read validated by TLC
+    ntr = 6 if thorough else 2
+    for j in range(ntr):
+        cols = C01_COLS[j % len(C01_COLS)]
+        record_and_validate(rep, cols, 12, 5, 900 if thorough else 350, SEED * 1000 + j, label="c01t%d" % j)
     return rep.finish()
+
+
+# ---------------------------------------------------------------------------
+# implementation -> specification: recorded traces validated by TLC (TracePdb.tla)
+
+def trace_cfg(cols, nkeys, nvals, invariants=("TypeOK", "ReadLatest", "LayerHandOver")):
+    return pdb_cfg(kind=model_kinds(cols), nkeys=nkeys, nvals=nvals, maxcalls=1000000, maxops=4, maxcrash=1000000,
+                   maxaux=1000000, fine=True, gen=False, feat=("crash", "restart", "reject", "aux"), spec="TraceSpec",
+                   view="TraceView", invariants=invariants).replace("  GenLen = 0\n", "") \
+        .replace("CHECK_DEADLOCK FALSE", "POSTCONDITION TraceAccepted\nCHECK_DEADLOCK FALSE")
+
+
+def validate_trace(rep, trace_path, cols, nkeys, nvals, label, meta):
+    """TLC decides whether the recorded trace is a behaviour of the specification."""
+    cfg = write_cfg(trace_cfg(cols, nkeys, nvals))
+    res = vcore.tlc_trace("MCTracePdb.tla", cfg, trace_path)
+    rep.traces += 1
+    rep.evaluations += 1
+    rep.transitions += res.get("generated", 0)
+    n_events = res.get("total", 0)
+    rep.extra["trace_events_validated"] = rep.extra.get("trace_events_validated", 0) + max(res.get("matched", 0), 0)
+    if not res["accepted"]:
+        first = ""
+        for line in res["out"].splitlines():
+            if "TRACE-FIRST-UNMATCHED" in line or "is violated" in line:
+                first += line.strip() + " "
+        # keep the trace itself as the replay artefact
+        os.makedirs(vcore.REPLAYS, exist_ok=True)
+        keep = os.path.join(vcore.REPLAYS, "%s_trace_%s.ndjson" % (rep.prop, label))
+        import shutil
+        shutil.copyfile(trace_path, keep)
+        ctx = ""
+        if res.get("matched", -1) >= 0:
+            with open(trace_path) as f:
+                lines = f.readlines()
+            ctx = "".join(lines[max(0, res["matched"] - 30): res["matched"] + 1])
+        rep.violation("recorded trace rejected by the specification after %s of %s events: %s [cols=%s]"
+                      % (res.get("matched"), n_events, first[:400], model_kinds(cols)),
+                      {"kind": "pdb-trace", "trace": keep, "cols": cols, "nkeys": nkeys, "nvals": nvals, "meta": meta},
+                      ctx=ctx)
+    return res
+
+
+def record_and_validate(rep, cols, nkeys, nvals, steps, seed, crash=0, label="", small=False):
+    out = os.path.join(vcore.scratch(), "trace_%s.ndjson" % label)
+    args = {"out": out, "cols": json.dumps(cols), "nkeys": nkeys, "nvals": nvals, "steps": steps, "seed": seed}
+    if crash:
+        args["crash"] = crash
+    if small:
+        args["small"] = True
+    p = vcore.pdbh("pdb-record", args)
+    summary = json.loads(p.stdout.strip().splitlines()[-1])
+    meta = {"cmd": "pdb-record", "args": args}
+    for pr in summary.get("problems", []):
+        rep.violation("driver: %s [cols=%s seed=%d]" % (pr, model_kinds(cols), seed),
+                      {"kind": "pdb-record", "cols": cols, "nkeys": nkeys, "nvals": nvals, "steps": steps, "seed": seed,
+                       "crash": crash, "small": small})
+    res = validate_trace(rep, out, cols, nkeys, nvals, label, meta)
+    rep.nontrivial.add("trace:%s:%d" % (label, seed))
+    if len(rep.samples) < 4:
+        with open(out) as f:
+            head = [json.loads(x) for x in f.readlines()[:400]]
+        sample = [e for e in head if e.get("e") not in ("TabWrite", "Obs")][:14]
+        rep.sample({"trace_cols": cols, "events": summary.get("events"), "crashes": summary.get("crashes"),
+                    "first_events": sample})
+    log("[trace] %s cols=%s: %d events (%s crashes, %s restarts), matched %s/%s"
+        % (label, model_kinds(cols), summary.get("events", 0), summary.get("crashes"), summary.get("restarts"),
+           res.get("matched"), res.get("total")))
+    return res
+
+
+def record_mt_and_validate(rep, cols, nkeys, commits, seed, label="", readers=3, committers=2):
+    out = os.path.join(vcore.scratch(), "tracemt_%s.ndjson" % label)
+    args = {"out": out, "cols": json.dumps(cols), "nkeys": nkeys, "commits": commits, "seed": seed,
+            "readers": readers, "committers": committers}
+    p = vcore.pdbh("pdb-record-mt", args)
+    summary = json.loads(p.stdout.strip().splitlines()[-1])
+    for pr in summary.get("problems", []):
+        rep.violation("driver: %s [cols=%s seed=%d]" % (pr, model_kinds(cols), seed),
+                      {"kind": "pdb-record-mt", "cols": cols, "nkeys": nkeys, "commits": commits, "seed": seed})
+    res = validate_trace(rep, out, cols, nkeys, 1, label, {"cmd": "pdb-record-mt", "args": args})
+    rep.nontrivial.add("tracemt:%s:%d" % (label, seed))
+    log("[trace-mt] %s cols=%s: %d events, matched %s/%s" % (label, model_kinds(cols), summary.get("events", 0),
+                                                              res.get("matched"), res.get("total")))
+    return res
